@@ -89,6 +89,6 @@ def run_case(ctx, n, sys_cfg, scenario):
 
 
 RULE_TEXT = ('The first cases of every run are SYSTEMATIC (vt/sysx.py): for a small scenario (2 threads, short plans) EVERY schedule that '
-             'deviates at most %s times (thorough: %s) from the deterministic default scheduler - a deviation is a preemption of the running '
+             'deviates at most %s times (thorough tier: %s, on more and larger scenarios) from the deterministic default scheduler - a deviation is a preemption of the running '
              'thread or a different pick at a blocking point - is enumerated depth-first; counters systematic_* report the schedules run and '
              'how many scenarios were enumerated completely within the bound. ')
